@@ -11,7 +11,7 @@ THEOREMS = ["Mesa.Devs." + t for t in (
     "C15_abm_steps_eq_clock_after_resume", "C15_uninterrupted_run_is_resumed_run", "C15_uninterrupted_run_fuel_irrelevant",
     "C15_resumed_in_pieces_eq_resumed_in_one_piece", "C15_chunking_with_exceptions_progress",
     "C15_life_abm_step_invariant", "C15_life_steps_track_clock", "C15_life_abm_second_setup_refused")]
-COUNTS = {"quick": 500, "thorough": 150000}
+COUNTS = {"quick": 540, "thorough": 162000}
 TRUSTED = [
     "CPython heapq pop-min; refcount weakref death; exact dyadic time arithmetic (see C14)",
     "Model._wrapped_step increments model.steps before the user's step body (property C05)",
@@ -88,10 +88,19 @@ def gen_chunk(R):
 
 
 def generate(rng, tier, count):
+    # the lifecycle stream comes last, from a generator of its own: the other streams are what they were before it was added
+    n_life = count // 13
+    yield from _generate(rng, count - n_life)
+    import random as _random
+    R2 = _random.Random()
+    R2.setstate(rng.getstate())
+    for _ in range(n_life):
+        yield D.gen_lifecycle(R2, kind="abm")
+
+
+def _generate(rng, count):
     for i in range(count):
-        if i % 12 == 5:
-            yield D.gen_lifecycle(rng, kind="abm")
-        elif i % 3 != 2:
+        if i % 3 != 2:
             yield gen_chunk(rng)
         elif (i // 3) % 4 == 0:
             yield D.gen_shared(rng)
